@@ -47,17 +47,24 @@ RegDepsOK     == DepsAre(AfterReg.pointDeps)
 
 (* noop: a class definition that must NOT register anything (a datasource of the spec's name in a    *)
 (* sub-subclass of an implementation class: its base declares no registry point)                     *)
-NoopOK == Ev.check => /\ Len(Ev.ignore) = Len(impls)
-                      /\ \A i \in DOMAIN Ev.ignore : ignore[i] = Rng(Ev.ignore[i])
-                      /\ \A c \in DOMAIN Ev.handlers : c \in Ctx /\ handlers[c] = Ev.handlers[c]
-                      /\ DepsAre(pointDeps)
+NoopOK == Ev.check => /\ Ev.rd.ignore => (/\ Len(Ev.ignore) = Len(impls)
+                                           /\ \A i \in DOMAIN Ev.ignore : ignore[i] = Rng(Ev.ignore[i]))
+                      /\ Ev.rd.handlers => \A c \in DOMAIN Ev.handlers : c \in Ctx /\ handlers[c] = Ev.handlers[c]
+                      /\ Ev.rd.deps => DepsAre(pointDeps)
 
 (* A history is validated twice: once with check = TRUE (the registries after each registration are  *)
 (* the state RegisterImpl leaves: mechanism conformance), once with check = FALSE followed by the    *)
 (* evaluations (judged by the statement alone), so that a difference in the mechanism never hides    *)
 (* what it does to the statement.                                                                    *)
+(* The registries are internal tables: the driver reports each of the three projections as readable *)
+(* or not (Ev.rd); an unreadable one (changed shape) is NOT constrained - the property is about which  *)
+(* implementation's value a consumer gets and which implementations execute, judged on the /stmt      *)
+(* trace.                                                                                              *)
+IgnChk == Ev.rd.ignore => (Len(Ev.ignore) = Len(impls) + 1 /\ RegIgnoreOK)
+HdlChk == Ev.rd.handlers => RegHandlersOK
+DepChk == Ev.rd.deps => RegDepsOK
 RegOK == /\ DeclShapeOK(Ev.d)
-         /\ Ev.check => (Len(Ev.ignore) = Len(impls) + 1 /\ RegIgnoreOK /\ RegHandlersOK /\ RegDepsOK)
+         /\ Ev.check => (IgnChk /\ HdlChk /\ DepChk)
 
 (* ---- the statement, on observed values ---- *)
 A   == Ev.active
@@ -105,9 +112,9 @@ KindOf(j) == IF j \in DOMAIN impls THEN impls[j].k ELSE "none"
 LvlTag(d) == IF d.lvl > 0 THEN "@refined" ELSE ""
 LvlOf(j)  == IF j \in DOMAIN impls /\ impls[j].lvl > 0 THEN "@refined" ELSE ""
 DiagReg ==
-    IF ~DeclShapeOK(Ev.d) \/ Len(Ev.ignore) # Len(impls) + 1 THEN "reg.shape"
-    ELSE IF ~RegDepsOK THEN "Reg.pointDeps:" \o Ev.d.k \o LvlTag(Ev.d)
-    ELSE IF ~RegHandlersOK THEN "Reg.handlers:" \o Ev.d.k \o LvlTag(Ev.d)
+    IF ~DeclShapeOK(Ev.d) THEN "reg.shape"
+    ELSE IF ~DepChk THEN "Reg.pointDeps:" \o Ev.d.k \o LvlTag(Ev.d)
+    ELSE IF ~HdlChk THEN "Reg.handlers:" \o Ev.d.k \o LvlTag(Ev.d)
     ELSE "Reg.ignore:" \o Ev.d.k \o LvlTag(Ev.d)
 
 DiagEval ==
@@ -141,6 +148,7 @@ DiagDag ==
 Diagnose ==
     CASE Ev.ev = "reg"  -> DiagReg
       [] Ev.ev = "noop" -> "Reg.unregistered-deep-subclass-changed-the-registries"
+      [] Ev.ev = "regfail" -> "Registration.raised:" \o Ev.d.k \o LvlTag(Ev.d)
       [] Ev.ev = "eval" -> DiagEval
       [] Ev.ev = "dag"  -> DiagDag
       [] OTHER -> "unknown-event"
